@@ -26,6 +26,17 @@
 (*   "pexsend"  PEX sender is started for a private torrent                *)
 (*   "dhtstart" DHT announcer is started for a private torrent             *)
 (*   "magnet"   Magnet() exports a private torrent                         *)
+(*   "loadident" a torrent loaded from a resume record without bitfield    *)
+(*              (added stopped / stopped while allocating) gets its        *)
+(*              trackers with the public identity                          *)
+(*   "magnetgone" Magnet() through a handle that outlives the torrent      *)
+(*              (RemoveTorrent, Session.Close) exports a private torrent   *)
+(*                                                                         *)
+(* Life cycle: Reload = the session is closed and a new session loads the  *)
+(* torrent from its resume record (restart, or move to another session):   *)
+(* the trackers are created anew, with the identity the loader derives     *)
+(* from the record.  Gone = the torrent was removed or its session closed  *)
+(* while the user still holds the handle: only Magnet() can be called.     *)
 (***************************************************************************)
 EXTENDS Integers, FiniteSets, Sequences, TLC
 
@@ -46,9 +57,12 @@ VARIABLES cfg,        \* [priv, dht, pex, sibling : BOOLEAN, mode : {"file","mag
           nodes,      \* a DHT node was learned through a port message
           magnetRes,  \* "none" | "ok" | "err"
           leak,       \* forbidden outputs produced so far (history variable)
-          hist
+          hist,
+          life        \* [bf : the resume record holds a bitfield (allocation / verification finished once),
+                      \*  ident : identity class the torrent's trackers were created with ("private" | "public"),
+                      \*  gone : the torrent was removed / its session closed, the handle lives on]
 
-vars == <<cfg, info, running, conn, pexOn, queue, dialled, dhtAnn, dhtPending, asked, sibAsked, nodes, magnetRes, leak, hist>>
+vars == <<cfg, info, running, conn, pexOn, queue, dialled, dhtAnn, dhtPending, asked, sibAsked, nodes, magnetRes, leak, hist, life>>
 
 Source == {"tracker", "manual", "dht", "pex"}
 Kind == Source \cup {"incoming"}
@@ -75,6 +89,7 @@ InitWith(c) ==
     /\ running = FALSE /\ conn = {} /\ pexOn = {} /\ queue = {} /\ dialled = {}
     /\ dhtAnn = FALSE /\ dhtPending = FALSE /\ asked = FALSE /\ sibAsked = FALSE /\ nodes = FALSE
     /\ magnetRes = "none" /\ leak = {} /\ hist = 0
+    /\ life = [bf |-> FALSE, ident |-> IF c.mode = "file" /\ c.priv THEN "private" ELSE "public", gone |-> FALSE]
 
 Init == \E c \in Cfgs : InitWith(c)
 
@@ -89,7 +104,7 @@ DoStart ==
     /\ LET ann == cfg.dht /\ (~IsPriv \/ "dhtstart" \in AsIs)
        IN /\ dhtAnn' = ann
           /\ dhtPending' = (dhtPending \/ ann)          \* the announcer announces at once
-    /\ UNCHANGED <<cfg, conn, pexOn, queue, dialled, asked, sibAsked, nodes, magnetRes, leak>>
+    /\ UNCHANGED <<cfg, conn, pexOn, queue, dialled, asked, sibAsked, nodes, magnetRes, leak, life>>
 
 StopEffects ==
     /\ running' = FALSE /\ conn' = {} /\ pexOn' = {} /\ queue' = {} /\ dhtAnn' = FALSE
@@ -99,7 +114,7 @@ StopEffects ==
 DoStop ==
     /\ running
     /\ StopEffects
-    /\ UNCHANGED <<cfg, info, dialled, asked, sibAsked, nodes, magnetRes, leak>>
+    /\ UNCHANGED <<cfg, info, dialled, asked, sibAsked, nodes, magnetRes, leak, life>>
 
 \* @obligation C19.sources  handleNewPeers: a private torrent admits tracker and manual addresses only
 Admit(src) ==
@@ -112,11 +127,11 @@ NewPeers(src) == queue' = IF running /\ Admit(src) THEN queue \cup {src} ELSE qu
 
 DoTrackerPeers ==
     /\ NewPeers("tracker")
-    /\ UNCHANGED <<cfg, info, running, conn, pexOn, dialled, dhtAnn, dhtPending, asked, sibAsked, nodes, magnetRes, leak>>
+    /\ UNCHANGED <<cfg, info, running, conn, pexOn, dialled, dhtAnn, dhtPending, asked, sibAsked, nodes, magnetRes, leak, life>>
 
 DoAddPeer ==
     /\ NewPeers("manual")
-    /\ UNCHANGED <<cfg, info, running, conn, pexOn, dialled, dhtAnn, dhtPending, asked, sibAsked, nodes, magnetRes, leak>>
+    /\ UNCHANGED <<cfg, info, running, conn, pexOn, dialled, dhtAnn, dhtPending, asked, sibAsked, nodes, magnetRes, leak, life>>
 
 LeakOfDial(s) == IF Restricted /\ s \notin Allowed THEN {"dial." \o s} ELSE {}
 
@@ -124,53 +139,53 @@ DoDial(s) ==
     /\ running /\ s \in queue
     /\ queue' = queue \ {s} /\ dialled' = dialled \cup {s} /\ conn' = conn \cup {s}
     /\ leak' = leak \cup LeakOfDial(s)
-    /\ UNCHANGED <<cfg, info, running, pexOn, dhtAnn, dhtPending, asked, sibAsked, nodes, magnetRes>>
+    /\ UNCHANGED <<cfg, info, running, pexOn, dhtAnn, dhtPending, asked, sibAsked, nodes, magnetRes, life>>
 
 DoIncoming ==
     /\ running
     /\ conn' = conn \cup {"incoming"}
-    /\ UNCHANGED <<cfg, info, running, pexOn, queue, dialled, dhtAnn, dhtPending, asked, sibAsked, nodes, magnetRes, leak>>
+    /\ UNCHANGED <<cfg, info, running, pexOn, queue, dialled, dhtAnn, dhtPending, asked, sibAsked, nodes, magnetRes, leak, life>>
 
 \* @obligation C19.pex.sent  extension handshake handler: the PEX sender starts only for a torrent known to be public
 DoExtHs(p) ==
     /\ p \in conn
     /\ pexOn' = IF cfg.pex /\ info = "known" /\ (~cfg.priv \/ "pexsend" \in AsIs) THEN pexOn \cup {p} ELSE pexOn
-    /\ UNCHANGED <<cfg, info, running, conn, queue, dialled, dhtAnn, dhtPending, asked, sibAsked, nodes, magnetRes, leak>>
+    /\ UNCHANGED <<cfg, info, running, conn, queue, dialled, dhtAnn, dhtPending, asked, sibAsked, nodes, magnetRes, leak, life>>
 
 DoPexFlush(p) ==         \* a ut_pex message leaves
     /\ p \in pexOn
     /\ leak' = leak \cup (IF Restricted THEN {"pex.sent"} ELSE {})
-    /\ UNCHANGED <<cfg, info, running, conn, pexOn, queue, dialled, dhtAnn, dhtPending, asked, sibAsked, nodes, magnetRes>>
+    /\ UNCHANGED <<cfg, info, running, conn, pexOn, queue, dialled, dhtAnn, dhtPending, asked, sibAsked, nodes, magnetRes, life>>
 
 \* @obligation C19.pex.acted  incoming PEX message: ignored unless PEX is enabled AND the torrent is not private
 DoPexMsg(p) ==
     /\ p \in conn
     /\ IF cfg.pex THEN NewPeers("pex") ELSE UNCHANGED queue
-    /\ UNCHANGED <<cfg, info, running, conn, pexOn, dialled, dhtAnn, dhtPending, asked, sibAsked, nodes, magnetRes, leak>>
+    /\ UNCHANGED <<cfg, info, running, conn, pexOn, dialled, dhtAnn, dhtPending, asked, sibAsked, nodes, magnetRes, leak, life>>
 
 DoPortMsg(p) ==          \* dht.AddNode: a node of the routing table, nothing about the torrent
     /\ p \in conn
     /\ nodes' = (nodes \/ cfg.dht)
-    /\ UNCHANGED <<cfg, info, running, conn, pexOn, queue, dialled, dhtAnn, dhtPending, asked, sibAsked, magnetRes, leak>>
+    /\ UNCHANGED <<cfg, info, running, conn, pexOn, queue, dialled, dhtAnn, dhtPending, asked, sibAsked, magnetRes, leak, life>>
 
 DoDhtAnnounce ==         \* announcer timer: torrent.announceDHT
     /\ dhtAnn /\ dhtPending' = TRUE
-    /\ UNCHANGED <<cfg, info, running, conn, pexOn, queue, dialled, dhtAnn, asked, sibAsked, nodes, magnetRes, leak>>
+    /\ UNCHANGED <<cfg, info, running, conn, pexOn, queue, dialled, dhtAnn, asked, sibAsked, nodes, magnetRes, leak, life>>
 
 DoDhtTick ==             \* session tick: PeersRequestPort(info-hash, announce, port)
     /\ dhtPending /\ dhtPending' = FALSE /\ asked' = TRUE
     /\ leak' = leak \cup (IF Restricted THEN {"dht.ask"} ELSE {})
-    /\ UNCHANGED <<cfg, info, running, conn, pexOn, queue, dialled, dhtAnn, sibAsked, nodes, magnetRes>>
+    /\ UNCHANGED <<cfg, info, running, conn, pexOn, queue, dialled, dhtAnn, sibAsked, nodes, magnetRes, life>>
 
 DoSiblingAsk ==
     /\ cfg.sibling /\ cfg.dht /\ sibAsked' = TRUE
-    /\ UNCHANGED <<cfg, info, running, conn, pexOn, queue, dialled, dhtAnn, dhtPending, asked, nodes, magnetRes, leak>>
+    /\ UNCHANGED <<cfg, info, running, conn, pexOn, queue, dialled, dhtAnn, dhtPending, asked, nodes, magnetRes, leak, life>>
 
 \* @obligation C19.dht  DHT results never feed a private torrent, whoever asked for the info-hash
 DoDhtPeers ==
     /\ asked \/ sibAsked
     /\ NewPeers("dht")
-    /\ UNCHANGED <<cfg, info, running, conn, pexOn, dialled, dhtAnn, dhtPending, asked, sibAsked, nodes, magnetRes, leak>>
+    /\ UNCHANGED <<cfg, info, running, conn, pexOn, dialled, dhtAnn, dhtPending, asked, sibAsked, nodes, magnetRes, leak, life>>
 
 \* @obligation C19.metadata  metadata from a magnet link that is marked private is refused: the torrent stops
 DoMetadata(adopt) ==
@@ -180,22 +195,47 @@ DoMetadata(adopt) ==
             /\ leak' = leak \cup (IF cfg.priv THEN {"adopted"} ELSE {})
             /\ UNCHANGED <<running, conn, pexOn, queue, dhtAnn, dhtPending>>
        ELSE /\ info' = "refused" /\ StopEffects /\ UNCHANGED leak
-    /\ UNCHANGED <<cfg, dialled, asked, sibAsked, nodes, magnetRes>>
+    /\ UNCHANGED <<cfg, dialled, asked, sibAsked, nodes, magnetRes, life>>
 
 \* @obligation C19.magnet  Magnet() errors for a private torrent
 DoMagnet(ok) ==
     /\ magnetRes' = IF ok THEN "ok" ELSE "err"
     /\ leak' = leak \cup (IF IsPriv /\ ok THEN {"magnet.ok"} ELSE {})
-    /\ UNCHANGED <<cfg, info, running, conn, pexOn, queue, dialled, dhtAnn, dhtPending, asked, sibAsked, nodes>>
+    /\ UNCHANGED <<cfg, info, running, conn, pexOn, queue, dialled, dhtAnn, dhtPending, asked, sibAsked, nodes, life>>
 
 \* @obligation C19.identity  peer-id prefix / extension handshake "v" / HTTP User-Agent
 IdentityClass == IF IsPriv THEN "private" ELSE "public"
+
+\* allocation / verification finished: from now on the resume record holds a bitfield (internal step of the running torrent)
+DoProgress ==
+    /\ running /\ info = "known" /\ ~life.bf
+    /\ life' = [life EXCEPT !.bf = TRUE]
+    /\ UNCHANGED <<cfg, info, running, conn, pexOn, queue, dialled, dhtAnn, dhtPending, asked, sibAsked, nodes, magnetRes, leak>>
+
+\* @obligation C19.identity  session_load.go loadExistingTorrent: the torrent is built again from its resume record in EVERY
+\* state of the record (no bitfield yet / partial / complete); its trackers get the private identity iff the recorded info
+\* dict is private.  The new session starts it or leaves it stopped (DoStart is enabled either way).
+DoReload ==
+    /\ StopEffects
+    /\ info' = IF info = "refused" THEN "none" ELSE info
+    /\ life' = [life EXCEPT !.ident = IF IsPriv /\ (life.bf \/ "loadident" \notin AsIs) THEN "private" ELSE "public"]
+    /\ UNCHANGED <<cfg, dialled, asked, sibAsked, nodes, magnetRes, leak>>
+
+\* RemoveTorrent / Session.Close while the user keeps the handle: the torrent's loop has ended
+DoGone ==
+    /\ StopEffects
+    /\ life' = [life EXCEPT !.gone = TRUE]
+    /\ UNCHANGED <<cfg, info, dialled, asked, sibAsked, nodes, magnetRes, leak>>
+
+\* @obligation C19.magnet  ... in every life-cycle state of the handle: before the metadata is known (nothing to protect yet),
+\* running, stopped, after RemoveTorrent, after Session.Close
+MagnetOk == ~IsPriv \/ "magnet" \in AsIs \/ (life.gone /\ "magnetgone" \in AsIs)
 
 \* ---------------------------------------------------------------------------
 Env(A) == hist < MaxHist /\ A /\ hist' = hist + 1
 Intl(A) == A /\ UNCHANGED hist
 
-Next ==
+Live ==
     \/ Intl(DoStart)
     \/ Env(DoStop)
     \/ Env(DoTrackerPeers) \/ Env(DoAddPeer) \/ Env(DoIncoming)
@@ -204,7 +244,11 @@ Next ==
     \/ Intl(DoDhtAnnounce) \/ Intl(DoDhtTick)
     \/ Env(DoSiblingAsk) \/ Env(DoDhtPeers)
     \/ Intl(DoMetadata((cfg.priv /\ "adopt" \in AsIs) \/ ~cfg.priv))
-    \/ Env(DoMagnet(~IsPriv \/ "magnet" \in AsIs))
+    \/ Intl(DoProgress) \/ Env(DoReload) \/ Env(DoGone)
+
+Next ==
+    \/ ~life.gone /\ Live
+    \/ Env(DoMagnet(MagnetOk))
 
 Spec == Init /\ [][Next]_vars
 
@@ -217,8 +261,11 @@ InvMagnet  == IsPriv => magnetRes # "ok"
 InvRefused == info = "refused" => ~running /\ ~dhtAnn /\ ~dhtPending /\ queue = {} /\ conn = {}
 InvAdopt   == (cfg.mode = "magnet" /\ info = "known") => ~cfg.priv
 InvNoLeak  == leak = {}
+InvIdentity == IsPriv => life.ident = "private"
+InvGone    == life.gone => ~running /\ ~dhtAnn /\ ~dhtPending /\ queue = {} /\ conn = {}
 TypeOK ==
     /\ cfg \in Cfgs /\ info \in {"none", "known", "refused"} /\ running \in BOOLEAN
     /\ conn \subseteq Kind /\ pexOn \subseteq Kind /\ queue \subseteq Source /\ dialled \subseteq Source
     /\ magnetRes \in {"none", "ok", "err"} /\ hist \in 0 .. MaxHist
+    /\ life \in [bf : BOOLEAN, ident : {"private", "public"}, gone : BOOLEAN]
 =============================================================================
